@@ -176,33 +176,13 @@ UNITS["coherence/hash_args"] = hash_args
 
 
 def jacobian_cache(ctx):
-    import skfem as fem
     from skfem.mapping import MappingIsoparametric
+    from native import replay_misc as RM
     fn = ctx.function(MappingIsoparametric.J)
-    m = fem.MeshQuad.init_tensor(np.array([0., .4, 1.]), np.array([0., .3, 1.]))
-    X = np.array([[.2, .7, .1, .9], [.3, .4, .8, .6]])
-    seqs = [
-        ("tind-dtype", (X[:, :2], np.array([1], dtype=np.int64)), (X[:, :2], np.array([1, 0], dtype=np.int32))),
-        ("X-shape", (X, None), (np.ascontiguousarray(X.reshape(2, 2, 2)) if m.t.shape[1] == 2 else X.reshape(2, 4, 1)[:, :m.t.shape[1]], None)),
-        ("tind-subsets", (X[:, :3], np.array([0, 2])), (X[:, :3], np.array([1, 3]))),
-        ("X-values", (X[:, :2], None), (X[:, 2:], None)),
-    ]
-    for label, a, b in seqs:
-        try:
-            used = m._mapping()
-            used.detDF(*a)
-            got = used.detDF(*b)
-            want = fem.MeshQuad(m.p.copy(), m.t.copy())._mapping().detDF(*b)
-            ok = got.shape == want.shape and np.array_equal(got, want)
-            det = "" if ok else "second call returned shape %s, fresh mapping %s" % (got.shape, want.shape)
-        except Exception as e:
-            try:
-                fem.MeshQuad(m.p.copy(), m.t.copy())._mapping().detDF(*b)
-                ok, det = False, "used mapping raised %s, fresh mapping did not" % type(e).__name__
-            except Exception:
-                ok, det = True, ""
+    for label, _a, _b, _u in RM.jacobian_cache_sequences():
+        ok, det = RM.jacobian_cache_case(label)
         ctx.fact("coherence/jacobian-cache/%s" % label, fn, ok, det, clause="detDF(args2) after detDF(args1) == detDF(args2) on a fresh mapping",
-                 backend="path-execution", replay=dict(kind="hash_args"))
+                 backend="path-execution", replay=dict(kind="hash_args", case=label))
 
 
 UNITS["coherence/jacobian-cache"] = jacobian_cache
